@@ -182,6 +182,8 @@ type checkRun struct {
 	coversDead    int
 	sweepExcluded []string
 	trustedRepo   []string
+	bounded       []boundedResult
+	conformance   *conformanceResult
 }
 
 func selectObligations(fr *FuncResult, prop string) (sel []*Obligation, skipped int) {
@@ -207,7 +209,7 @@ func solveAll(obls []*Obligation, timeoutS int, confirm bool) (float64, map[stri
 			defer wg.Done()
 			sem <- struct{}{}
 			defer func() { <-sem }()
-			q := o.smt.Query(o.prefix, o.pc, not(o.goal))
+			q := o.Query()
 			r := Solve(q, timeoutS, confirm, o.Name)
 			o.Result = &r
 			mu.Lock()
@@ -325,6 +327,20 @@ func cmdCheck(args []string) int {
 			run.coversUnknown++
 		}
 	}
+	run.bounded = runBounded(*prop)
+	for _, b := range run.bounded {
+		if b.Error != "" {
+			fmt.Printf("ENGINE-LIMIT bounded stand-in %s: %s\n", b.Function, b.Error)
+			engineErr = true
+		}
+	}
+	if *tier == "thorough" {
+		run.conformance = runConformance()
+		if run.conformance != nil && (len(run.conformance.Failed) > 0 || len(run.conformance.Passed) == 0) {
+			fmt.Printf("ASSUMPTION-BROKEN: conformance tests of the assumed library models failed: %v\n%s\n", run.conformance.Failed, run.conformance.Output)
+			engineErr = true
+		}
+	}
 	code := report(run, time.Since(t0).Seconds(), *verbose, *keep, engineErr)
 	return code
 }
@@ -352,7 +368,7 @@ func report(run *checkRun, wall float64, verbose, keep bool, engineErr bool) int
 			continue
 		}
 		if len(samples) < 12 {
-			samples = append(samples, map[string]any{"obligation": o.Name, "kind": o.Kind, "status": r.Status, "solver": r.Solver, "secs": round3(r.Secs), "query_bytes": len(o.smt.Query(o.prefix, o.pc, not(o.goal)))})
+			samples = append(samples, map[string]any{"obligation": o.Name, "kind": o.Kind, "status": r.Status, "solver": r.Solver, "secs": round3(r.Secs), "query_bytes": len(o.Query())})
 		}
 		if verbose {
 			fmt.Printf("  %-8s %-7s %6.2fs %s\n", r.Status, r.Solver, r.Secs, o.Name)
@@ -378,6 +394,28 @@ func report(run *checkRun, wall float64, verbose, keep bool, engineErr bool) int
 		lines = append(lines, fmt.Sprintf("VIOLATION property=%s replay=%s%s", prop, path, suffix))
 		lines = append(lines, fmt.Sprintf("  obligation %s failed (%s by %s) at %s", o.Name, r.Status, r.Solver, o.Pos))
 	}
+	// bounded stand-ins (executed, not proved): a failing case is a replayed violation
+	boundedCases := 0
+	for _, b := range run.bounded {
+		boundedCases += b.Cases
+		produced[b.Obligation] = true
+		for i, f := range b.Failures {
+			if kf, ok := known[b.Obligation]; ok {
+				if !seenKnown[b.Obligation] {
+					lines = append(lines, fmt.Sprintf("KNOWN-FINDING: property=%s %s [bounded] %s", prop, b.Obligation, kf.Text))
+					seenKnown[b.Obligation] = true
+				}
+				continue
+			}
+			violations++
+			path := writeBoundedReplay(run, b, f, i)
+			lines = append(lines, fmt.Sprintf("VIOLATION property=%s replay=%s", prop, path))
+			lines = append(lines, fmt.Sprintf("  bounded stand-in %s failed on the real code: %s", b.Obligation, f))
+			if i >= 4 {
+				break
+			}
+		}
+	}
 	// lock: every locked clause must still produce obligations
 	for _, want := range lock[prop] {
 		if !produced[want] {
@@ -391,6 +429,12 @@ func report(run *checkRun, wall float64, verbose, keep bool, engineErr bool) int
 		fmt.Println(l)
 	}
 	total := len(run.obls)
+	if len(run.bounded) > 0 {
+		fmt.Printf("bounded stand-ins (not proof): %d function(s), %d cases executed on the real code\n", len(run.bounded), boundedCases)
+	}
+	if run.conformance != nil {
+		fmt.Printf("conformance of assumed library models (tested, not proved): %d passed, %d failed\n", len(run.conformance.Passed), len(run.conformance.Failed))
+	}
 	fmt.Printf("property %s tier %s: %d functions under contract, %d obligations, %d discharged, %d known-finding, %d violations, %d of other properties skipped; solver %.1fs wall %.1fs\n",
 		prop, run.tier, len(run.results), total, discharged, knownHits, violations, run.skipped, run.solveSec, wall)
 	writeEvidence(run, total, discharged, knownHits, violations, samples, wall)
@@ -477,6 +521,8 @@ func writeEvidence(run *checkRun, total, discharged, knownHits, violations int, 
 			"cover_points_dead_code":    run.coversDead,
 			"contract_files":           run.prog.contracts.Files,
 			"engine_warnings":          warnings,
+			"bounded_standins":         run.bounded,
+			"library_model_conformance": run.conformance,
 		},
 		"assumptions": assumptionsFor(run.prop),
 	}
@@ -539,7 +585,7 @@ func cmdFunc(args []string) int {
 			bad++
 			if *dump {
 				p := filepath.Join(verifDir, ".work", sanitize(o.Name)+".smt2")
-				os.WriteFile(p, []byte(o.smt.Query(o.prefix, o.pc, not(o.goal))+"(get-model)\n"), 0o644)
+				os.WriteFile(p, []byte(o.Query()+"(get-model)\n"), 0o644)
 				fmt.Println("    query:", p)
 			}
 		}
